@@ -562,9 +562,17 @@ func (r *vfRelayRig) c14ScriptedEnd(sc vfC14Script, rnd *vfRand, clientNL, serve
 			}
 		}
 		// some traffic of a transfer in both directions
+		cm, sm := r.toServer.Len(), r.toClient.Len()
 		r.clientIn.WriteAtomic([]byte("#NUM:1" + clientNL))
 		r.serverOut.WriteAtomic([]byte("#SUCC:1" + serverNL))
+		// the two pumps are independent: let both lines arrive before the end marker is written, or the marker
+		// seen by one pump could overtake the line still queued in the other and land inside the probe below
+		if !vfWaitSink(r.toServer, cm, []byte("#NUM:1"+clientNL), 10*time.Second) || !vfWaitSink(r.toClient, sm, []byte("#SUCC:1"+serverNL), 10*time.Second) {
+			c.Viol("c14-transfer-traffic-lost", "scripted %+v: protocol lines written during the transfer did not pass the relay within 10 s", sc)
+			return false
+		}
 	}
+	ce, se := r.toServer.Len(), r.toClient.Len()
 	switch sc.End {
 	case "client-exit":
 		r.clientIn.WriteAtomic([]byte("#EXIT:" + encodeString("Saved f.bin") + clientNL))
@@ -583,6 +591,34 @@ func (r *vfRelayRig) c14ScriptedEnd(sc vfC14Script, rnd *vfRand, clientNL, serve
 	}
 	if stt := r.relay.relayStatus.Load(); stt != kRelayStandBy {
 		c.Viol("c14-relay-not-standby:"+sc.End, "scripted %+v: the relay is in state %d (0 standby, 1 handshaking, 2 transferring) 5 s after the transfer ended", sc, stt)
+		return false
+	}
+	// the end marker itself is forwarded (by a pump that may lag behind the status change): wait for it
+	arrived := true
+	waitFail := func(s *vfSink, from int) bool {
+		deadline := time.Now().Add(10 * time.Second)
+		for time.Now().Before(deadline) {
+			if b := s.Bytes()[from:]; bytes.Contains(b, []byte("#FAIL:")) || bytes.Contains(b, []byte("#fail:")) {
+				return true
+			}
+			time.Sleep(200 * time.Microsecond)
+		}
+		return false
+	}
+	switch sc.End {
+	case "client-exit":
+		arrived = vfWaitSink(r.toServer, ce, []byte("#EXIT:"), 10*time.Second)
+	case "client-fail":
+		arrived = waitFail(r.toServer, ce)
+	case "server-fail":
+		arrived = waitFail(r.toClient, se)
+	case "server-exit":
+		arrived = vfWaitSink(r.toClient, se, []byte("#EXIT:"), 10*time.Second)
+	case "ctrl-c":
+		arrived = vfWaitSink(r.toServer, ce, []byte{0x03}, 10*time.Second)
+	}
+	if !arrived {
+		c.Viol("c14-end-marker-lost", "scripted %+v: the line that ended the transfer did not reach the other end within 10 s", sc)
 		return false
 	}
 	// transparency afterwards, byte-exact in both directions
